@@ -108,3 +108,30 @@ def two_parent_event(rng, g):
     elif r < 0.5:
         ev.append([{"k": "V", "n": GE.ALPHA[z], "s": None}, [GE.ALPHA[z], sz if rng.random() < 0.5 else not sz]])
     return ev
+
+
+def three_world_case(rng):
+    """A graph X -> Y, X -> W (plus noise) with irrelevant nodes A, B, C, and an event over three worlds that all share do(X = x) and
+    differ only in an irrelevant intervention: {W_{x,a} = w, Y_{x,b} = y, Y_{x,c} = y'}. The copies of Y merge with each other but
+    not with the factual Y; y' <> y makes the event impossible."""
+    x, y, w, a, b, c = range(6)
+    di = [[x, y], [x, w]] + ([[w, y]] if rng.random() < 0.3 else [])
+    bi = [[y, w]] if rng.random() < 0.3 else []
+    k = rng.choice([2, 3, 3])
+    irr = [a, b, c][:k]
+    nodes = [x, y, w] + irr
+    g = {"nodes": nodes, "dir": di, "bid": bi}
+    sx = rng.random() < 0.3
+    def cf(v, extra, val):
+        return [{"k": "C", "n": GE.ALPHA[v], "s": None, "i": sorted([[GE.ALPHA[x], sx], [GE.ALPHA[extra], rng.random() < 0.3]])}, [GE.ALPHA[v], val]]
+    sy = rng.random() < 0.5
+    ev = [cf(w, irr[0], rng.random() < 0.5), cf(y, irr[1 % k], sy)]
+    if k == 3 or rng.random() < 0.5:
+        ev.append(cf(y, irr[2 % k], (not sy) if rng.random() < 0.6 else sy))
+    keys = set()
+    out = []
+    for item in ev:
+        key = repr(item[0])
+        if key not in keys:
+            keys.add(key); out.append(item)
+    return g, out
